@@ -280,3 +280,466 @@ pub fn c08(out: &mut Vec<String>, rng: &mut Rng, tier: &str) {
         }
     }
 }
+
+// ------------------------------------------------------------------------------------------
+// C09: the same stack machine over every statistics state
+
+use stats_ci::comparison::{Paired, Unpaired};
+use stats_ci::mean::{Arithmetic, Geometric, Harmonic};
+use stats_ci::{proportion, quantile, Confidence, StatisticsOps};
+
+fn pf<F: FElem>(t: &str) -> F {
+    if t.starts_with('x') {
+        F::from64(f64::from_bits(u64::from_str_radix(&t[1..], 16).unwrap()))
+    } else {
+        F::from(f32::from_bits(u32::from_str_radix(&t[1..], 16).unwrap())).unwrap()
+    }
+}
+
+pub trait Acc: Clone {
+    /// tokens per observation
+    const OBS: usize;
+    fn new() -> Self;
+    fn append(&mut self, obs: &[String]);
+    /// extend with a chunk of observations (uses the type's own chunked entry points)
+    fn extend(&mut self, obs: &[String]);
+    fn from_iter(obs: &[String]) -> Self {
+        let mut s = Self::new();
+        s.extend(obs);
+        s
+    }
+    fn merge_assign(&mut self, r: Self);
+    fn add(self, r: Self) -> Self;
+    fn query(&self, conf: Confidence) -> String;
+}
+
+fn arith_query<F: FElem>(a: &Arithmetic<F>, conf: Confidence) -> String {
+    let ((s, c), (s2, c2), n) = a.verif_parts();
+    format!(
+        "{} {} {} {} {} | {} | {} {} {} {}",
+        n,
+        guarded(|| a.sample_mean().enc()),
+        guarded(|| a.sample_variance().enc()),
+        guarded(|| a.sample_std_dev().enc()),
+        guarded(|| a.sample_sem().enc()),
+        guarded(|| enc_cires(&a.ci_mean(conf))),
+        s.enc(),
+        c.enc(),
+        s2.enc(),
+        c2.enc()
+    )
+}
+
+impl<F: FElem> Acc for Arithmetic<F> {
+    const OBS: usize = 1;
+    fn new() -> Self {
+        Arithmetic::new()
+    }
+    fn append(&mut self, obs: &[String]) {
+        StatisticsOps::append(self, pf::<F>(&obs[0])).unwrap();
+    }
+    fn extend(&mut self, obs: &[String]) {
+        let v: Vec<F> = obs.iter().map(|t| pf::<F>(t)).collect();
+        StatisticsOps::extend(self, &v).unwrap();
+    }
+    fn from_iter(obs: &[String]) -> Self {
+        let v: Vec<F> = obs.iter().map(|t| pf::<F>(t)).collect();
+        <Arithmetic<F> as StatisticsOps<F>>::from_iter(&v).unwrap()
+    }
+    fn merge_assign(&mut self, r: Self) {
+        *self += r;
+    }
+    fn add(self, r: Self) -> Self {
+        self + r
+    }
+    fn query(&self, conf: Confidence) -> String {
+        arith_query(self, conf)
+    }
+}
+
+macro_rules! wrapper_acc {
+    ($ty:ident) => {
+        impl<F: FElem> Acc for $ty<F> {
+            const OBS: usize = 1;
+            fn new() -> Self {
+                $ty::new()
+            }
+            fn append(&mut self, obs: &[String]) {
+                $ty::append(self, pf::<F>(&obs[0])).unwrap();
+            }
+            fn extend(&mut self, obs: &[String]) {
+                let v: Vec<F> = obs.iter().map(|t| pf::<F>(t)).collect();
+                StatisticsOps::extend(self, &v).unwrap();
+            }
+            fn from_iter(obs: &[String]) -> Self {
+                let v: Vec<F> = obs.iter().map(|t| pf::<F>(t)).collect();
+                <$ty<F> as StatisticsOps<F>>::from_iter(&v).unwrap()
+            }
+            fn merge_assign(&mut self, r: Self) {
+                *self += r;
+            }
+            fn add(self, r: Self) -> Self {
+                self + r
+            }
+            fn query(&self, conf: Confidence) -> String {
+                format!(
+                    "{} {} {} | {}",
+                    self.sample_count(),
+                    guarded(|| self.sample_mean().enc()),
+                    guarded(|| self.sample_sem().enc()),
+                    guarded(|| enc_cires(&self.ci_mean(conf)))
+                )
+            }
+        }
+    };
+}
+wrapper_acc!(Geometric);
+wrapper_acc!(Harmonic);
+
+impl<F: FElem> Acc for Paired<F> {
+    const OBS: usize = 2;
+    fn new() -> Self {
+        Paired::default()
+    }
+    fn append(&mut self, obs: &[String]) {
+        self.append_pair(pf::<F>(&obs[0]), pf::<F>(&obs[1])).unwrap();
+    }
+    fn extend(&mut self, obs: &[String]) {
+        let a: Vec<F> = obs.iter().step_by(2).map(|t| pf::<F>(t)).collect();
+        let b: Vec<F> = obs.iter().skip(1).step_by(2).map(|t| pf::<F>(t)).collect();
+        if a.len() % 2 == 0 {
+            Paired::extend(self, &a, &b).unwrap();
+        } else {
+            let t: Vec<(F, F)> = a.into_iter().zip(b.into_iter()).collect();
+            self.extend_tuple(&t).unwrap();
+        }
+    }
+    fn merge_assign(&mut self, r: Self) {
+        *self += r;
+    }
+    fn add(self, r: Self) -> Self {
+        self + r
+    }
+    fn query(&self, conf: Confidence) -> String {
+        format!(
+            "{} {} {} | {}",
+            self.sample_count(),
+            guarded(|| self.sample_mean().enc()),
+            guarded(|| self.sample_sem().enc()),
+            guarded(|| enc_cires(&self.ci_mean(conf)))
+        )
+    }
+}
+
+impl<F: FElem> Acc for Unpaired<F> {
+    const OBS: usize = 2; // `A x` or `B y`
+    fn new() -> Self {
+        Unpaired::default()
+    }
+    fn append(&mut self, obs: &[String]) {
+        if obs[0] == "A" {
+            self.append_a(pf::<F>(&obs[1])).unwrap();
+        } else {
+            self.append_b(pf::<F>(&obs[1])).unwrap();
+        }
+    }
+    fn extend(&mut self, obs: &[String]) {
+        let mut a: Vec<F> = Vec::new();
+        let mut b: Vec<F> = Vec::new();
+        for o in obs.chunks(2) {
+            if o[0] == "A" {
+                a.push(pf::<F>(&o[1]));
+            } else {
+                b.push(pf::<F>(&o[1]));
+            }
+        }
+        if a.len() % 2 == 0 {
+            Unpaired::extend(self, &a, &b).unwrap();
+        } else {
+            self.extend_b(&b).unwrap();
+            self.extend_a(&a).unwrap();
+        }
+    }
+    fn from_iter(obs: &[String]) -> Self {
+        let mut a: Vec<F> = Vec::new();
+        let mut b: Vec<F> = Vec::new();
+        for o in obs.chunks(2) {
+            if o[0] == "A" {
+                a.push(pf::<F>(&o[1]));
+            } else {
+                b.push(pf::<F>(&o[1]));
+            }
+        }
+        Unpaired::from_iter(&a, &b).unwrap()
+    }
+    fn merge_assign(&mut self, r: Self) {
+        *self += r;
+    }
+    fn add(self, r: Self) -> Self {
+        self + r
+    }
+    fn query(&self, conf: Confidence) -> String {
+        format!(
+            "{} {} {} {} | {}",
+            self.stats_a().sample_count(),
+            self.stats_b().sample_count(),
+            guarded(|| self.stats_a().sample_mean().enc()),
+            guarded(|| self.stats_b().sample_mean().enc()),
+            guarded(|| enc_cires(&self.ci_mean(conf)))
+        )
+    }
+}
+
+impl Acc for proportion::Stats {
+    const OBS: usize = 1;
+    fn new() -> Self {
+        proportion::Stats::default()
+    }
+    fn append(&mut self, obs: &[String]) {
+        if obs[0] == "T" {
+            self.add_success()
+        } else {
+            self.add_failure()
+        }
+    }
+    fn extend(&mut self, obs: &[String]) {
+        let v: Vec<bool> = obs.iter().map(|t| t == "T").collect();
+        if v.len() % 2 == 0 {
+            proportion::Stats::extend(self, &v);
+        } else {
+            self.extend_if(&v, |x| *x);
+        }
+    }
+    fn from_iter(obs: &[String]) -> Self {
+        obs.iter().map(|t| t == "T").collect()
+    }
+    fn merge_assign(&mut self, r: Self) {
+        *self += r;
+    }
+    fn add(self, r: Self) -> Self {
+        self + r
+    }
+    fn query(&self, conf: Confidence) -> String {
+        format!("{} {} | {}", self.population(), self.successes(), guarded(|| enc_cires(&self.ci(conf))))
+    }
+}
+
+impl Acc for quantile::Stats {
+    const OBS: usize = 1;
+    fn new() -> Self {
+        quantile::Stats::default()
+    }
+    fn append(&mut self, _obs: &[String]) {
+        *self += quantile::Stats::new(1);
+    }
+    fn extend(&mut self, obs: &[String]) {
+        *self = *self + quantile::Stats::new(obs.len());
+    }
+    fn from_iter(obs: &[String]) -> Self {
+        quantile::Stats::new(obs.len())
+    }
+    fn merge_assign(&mut self, r: Self) {
+        *self += r;
+    }
+    fn add(self, r: Self) -> Self {
+        self + r
+    }
+    fn query(&self, conf: Confidence) -> String {
+        guarded(|| enc_cires(&self.ci(conf, 0.5)))
+    }
+}
+
+/// interpret a program; returns the outputs of its queries, then `B` and the batch query
+pub fn run_prog<S: Acc>(conf: Confidence, toks: &[String]) -> String {
+    let mut st: Vec<S> = Vec::new();
+    let mut data: Vec<Vec<String>> = Vec::new(); // observations delivered to each stack entry, in order
+    let mut out: Vec<String> = Vec::new();
+    let mut i = 0;
+    while i < toks.len() {
+        match toks[i].as_str() {
+            "E" => {
+                st.push(S::new());
+                data.push(Vec::new());
+                i += 1;
+            }
+            "a" => {
+                let obs = &toks[i + 1..i + 1 + S::OBS];
+                st.last_mut().unwrap().append(obs);
+                data.last_mut().unwrap().extend_from_slice(obs);
+                i += 1 + S::OBS;
+            }
+            "x" | "f" => {
+                let n: usize = toks[i + 1].parse().unwrap();
+                let obs = &toks[i + 2..i + 2 + n * S::OBS];
+                if toks[i] == "x" {
+                    st.last_mut().unwrap().extend(obs);
+                    data.last_mut().unwrap().extend_from_slice(obs);
+                } else {
+                    st.push(S::from_iter(obs));
+                    data.push(obs.to_vec());
+                }
+                i += 2 + n * S::OBS;
+            }
+            "d" => {
+                let c = st.last().unwrap().clone();
+                let d = data.last().unwrap().clone();
+                st.push(c);
+                data.push(d);
+                i += 1;
+            }
+            "m" => {
+                let r = st.pop().unwrap();
+                let rd = data.pop().unwrap();
+                st.last_mut().unwrap().merge_assign(r);
+                data.last_mut().unwrap().extend(rd);
+                i += 1;
+            }
+            "p" => {
+                let r = st.pop().unwrap();
+                let l = st.pop().unwrap();
+                let rd = data.pop().unwrap();
+                st.push(l.add(r));
+                data.last_mut().unwrap().extend(rd);
+                i += 1;
+            }
+            "q" => {
+                out.push(guarded(|| st.last().unwrap().query(conf)));
+                i += 1;
+            }
+            _ => panic!("bad token {}", toks[i]),
+        }
+    }
+    // the batch computation over everything the final state was fed, in delivery order
+    let all = data.last().cloned().unwrap_or_default();
+    out.push("B".to_string());
+    out.push(guarded(|| S::from_iter(&all).query(conf)));
+    out.join(" | ")
+}
+
+fn obs_tokens<F: FElem>(kind: &str, rng: &mut Rng, scale: f64) -> Vec<String> {
+    match kind {
+        "arith" => vec![fenc::<F>((rng.unit() - 0.3) * scale)],
+        "geo" | "harm" => vec![fenc::<F>((0.25 + rng.unit()) * scale)],
+        "paired" => vec![fenc::<F>(rng.unit() * scale), fenc::<F>((rng.unit() - 0.1) * scale)],
+        "unpaired" => vec![if rng.coin() { "A".into() } else { "B".into() }, fenc::<F>((rng.unit() - 0.4) * scale)],
+        "prop" => vec![if rng.below(3) == 0 { "F".into() } else { "T".into() }],
+        _ => vec!["U".into()],
+    }
+}
+
+/// a random history: chunks built by append / extend / from_iter, clones, merges in random
+/// shapes, queries interleaved (sometimes repeated)
+fn random_history<F: FElem>(kind: &str, rng: &mut Rng, max_ops: usize) -> Vec<String> {
+    let scale = (2.0f64).powi(rng.range(-8, 8) as i32);
+    let mut toks: Vec<String> = Vec::new();
+    let mut depth = 0usize;
+    let nops = rng.range(1, max_ops as i64) as usize;
+    for _ in 0..nops {
+        match rng.below(10) {
+            0 | 1 => {
+                toks.push("E".into());
+                depth += 1;
+            }
+            2 if depth > 0 => {
+                toks.push("a".into());
+                toks.extend(obs_tokens::<F>(kind, rng, scale));
+            }
+            3 | 4 if depth > 0 => {
+                let n = rng.range(0, 12) as usize;
+                toks.push("x".into());
+                toks.push(format!("{}", n));
+                for _ in 0..n {
+                    toks.extend(obs_tokens::<F>(kind, rng, scale));
+                }
+            }
+            5 => {
+                let n = rng.range(0, 12) as usize;
+                toks.push("f".into());
+                toks.push(format!("{}", n));
+                for _ in 0..n {
+                    toks.extend(obs_tokens::<F>(kind, rng, scale));
+                }
+                depth += 1;
+            }
+            6 if depth > 0 && depth < 6 => {
+                toks.push("d".into());
+                depth += 1;
+            }
+            7 | 8 if depth >= 2 => {
+                toks.push(if rng.coin() { "m".into() } else { "p".into() });
+                depth -= 1;
+            }
+            9 if depth > 0 => {
+                toks.push("q".into());
+                if rng.coin() {
+                    toks.push("q".into());
+                }
+            }
+            _ => {}
+        }
+    }
+    if depth == 0 {
+        toks.push("E".into());
+        depth = 1;
+    }
+    while depth >= 2 {
+        toks.push(if rng.coin() { "m".into() } else { "p".into() });
+        depth -= 1;
+    }
+    toks.push("q".into());
+    toks
+}
+
+pub fn c09(out: &mut Vec<String>, rng: &mut Rng, tier: &str) {
+    let reps = if tier == "thorough" { 600 } else { 80 };
+    let kinds = ["arith", "geo", "harm", "paired", "unpaired", "prop", "quant"];
+    for i in 0..reps {
+        for kind in kinds {
+            let conf = crate::gen::rand_conf(rng);
+            let max_ops = if i % 10 == 0 { 200 } else { 40 };
+            let f32v = i % 2 == 1;
+            let (toks, res, tag) = match (kind, f32v) {
+                ("arith", false) => { let t = random_history::<f64>(kind, rng, max_ops); let r = run_prog::<Arithmetic<f64>>(conf, &t); (t, r, "f") }
+                ("arith", true) => { let t = random_history::<f32>(kind, rng, max_ops); let r = run_prog::<Arithmetic<f32>>(conf, &t); (t, r, "g") }
+                ("geo", false) => { let t = random_history::<f64>(kind, rng, max_ops); let r = run_prog::<Geometric<f64>>(conf, &t); (t, r, "f") }
+                ("geo", true) => { let t = random_history::<f32>(kind, rng, max_ops); let r = run_prog::<Geometric<f32>>(conf, &t); (t, r, "g") }
+                ("harm", false) => { let t = random_history::<f64>(kind, rng, max_ops); let r = run_prog::<Harmonic<f64>>(conf, &t); (t, r, "f") }
+                ("harm", true) => { let t = random_history::<f32>(kind, rng, max_ops); let r = run_prog::<Harmonic<f32>>(conf, &t); (t, r, "g") }
+                ("paired", false) => { let t = random_history::<f64>(kind, rng, max_ops); let r = run_prog::<Paired<f64>>(conf, &t); (t, r, "f") }
+                ("paired", true) => { let t = random_history::<f32>(kind, rng, max_ops); let r = run_prog::<Paired<f32>>(conf, &t); (t, r, "g") }
+                ("unpaired", false) => { let t = random_history::<f64>(kind, rng, max_ops); let r = run_prog::<Unpaired<f64>>(conf, &t); (t, r, "f") }
+                ("unpaired", true) => { let t = random_history::<f32>(kind, rng, max_ops); let r = run_prog::<Unpaired<f32>>(conf, &t); (t, r, "g") }
+                ("prop", _) => { let t = random_history::<f64>(kind, rng, max_ops); let r = run_prog::<proportion::Stats>(conf, &t); (t, r, "f") }
+                _ => { let t = random_history::<f64>(kind, rng, max_ops); let r = run_prog::<quantile::Stats>(conf, &t); (t, r, "f") }
+            };
+            out.push(format!("C09 prog {} {} {} {} => {}", tag, kind, enc_conf(&conf), toks.join(" "), res));
+        }
+    }
+    // parallel reduction (rayon) of chunked data over 1..16 threads: any schedule must give the batch result
+    use rayon::prelude::*;
+    let preps = if tier == "thorough" { 60 } else { 12 };
+    for i in 0..preps {
+        let threads = 1 + (i % 16);
+        let nchunks = rng.range(1, 40) as usize;
+        let conf = crate::gen::rand_conf(rng);
+        let chunks: Vec<Vec<f32>> = (0..nchunks)
+            .map(|_| {
+                let n = rng.range(0, 400) as usize;
+                (0..n).map(|_| ((rng.unit() - 0.2) * 8.0) as f32).collect()
+            })
+            .collect();
+        let pool = rayon::ThreadPoolBuilder::new().num_threads(threads).build().unwrap();
+        let reduced: Arithmetic<f32> = pool.install(|| {
+            chunks
+                .par_iter()
+                .map(|c| <Arithmetic<f32> as StatisticsOps<f32>>::from_iter(c).unwrap())
+                .reduce(Arithmetic::default, |a, b| a + b)
+        });
+        let mut l = format!("C09 par g {} {} {}", enc_conf(&conf), threads, nchunks);
+        for c in &chunks {
+            l.push(' ');
+            l.push_str(&crate::stat_ops::enc_list(c));
+        }
+        out.push(format!("{} => {}", l, arith_query(&reduced, conf)));
+    }
+}
